@@ -180,6 +180,36 @@ func genKeyTable() string {
 		}
 		fmt.Fprintf(&b, "  (%s, [%s])%s\n", leanStr(r.name), strings.Join(xs, ", "), sep)
 	}
+	// the literal each XxxType.Name() returns (the first byte string of every type key): receiver ↦ name
+	nameRows := [][2]string{
+		{"types/anytype.go", "AnyType"}, {"types/undeftype.go", "UndefType"}, {"types/stringtype.go", "stringType"}, {"types/integertype.go", "IntegerType"},
+		{"types/floattype.go", "FloatType"}, {"types/enumtype.go", "EnumType"}, {"types/arraytype.go", "ArrayType"}, {"types/varianttype.go", "VariantType"},
+		{"types/tupletype.go", "TupleType"}, {"types/optionaltype.go", "OptionalType"}, {"types/typetype.go", "TypeType"}, {"types/defaulttype.go", "DefaultType"},
+		{"types/unittype.go", "UnitType"}, {"types/scalartype.go", "ScalarType"}, {"types/scalardatatype.go", "ScalarDataType"}, {"types/numerictype.go", "NumericType"},
+		{"types/binarytype.go", "BinaryType"}, {"types/semverrangetype.go", "SemVerRangeType"}, {"types/booleantype.go", "BooleanType"},
+		{"types/collectiontype.go", "CollectionType"}, {"types/notundeftype.go", "NotUndefType"}, {"types/sensitivetype.go", "SensitiveType"},
+		{"types/iterabletype.go", "IterableType"}, {"types/iteratortype.go", "IteratorType"}, {"types/regexptype.go", "RegexpType"}, {"types/patterntype.go", "PatternType"},
+		{"types/typereferencetype.go", "TypeReferenceType"}, {"types/semvertype.go", "SemVerType"}, {"types/hashtype.go", "HashType"}, {"types/liketype.go", "LikeType"},
+		{"types/callabletype.go", "CallableType"}, {"types/runtimetype.go", "RuntimeType"}, {"types/structtype.go", "StructType"},
+	}
+	b.WriteString("\n/-- the string literal each `XxxType.Name()` returns -/\ndef typeNames : List (String × String) := [\n")
+	for i, r := range nameRows {
+		name := "unknown"
+		if fd := findFunc(parseFile(r[0]), r[1], "Name"); fd != nil && fd.Body != nil && len(fd.Body.List) == 1 {
+			if ret, ok := fd.Body.List[0].(*ast.ReturnStmt); ok && len(ret.Results) == 1 {
+				if lit, ok := ret.Results[0].(*ast.BasicLit); ok && lit.Kind == token.STRING {
+					if s, err := strconv.Unquote(lit.Value); err == nil {
+						name = s
+					}
+				}
+			}
+		}
+		sep := ","
+		if i == len(nameRows)-1 {
+			sep = "]"
+		}
+		fmt.Fprintf(&b, "  (%s, %s)%s\n", leanStr(r[1]), leanStr(name), sep)
+	}
 	b.WriteString("\nend Pcore.Generated\n")
 	return b.String()
 }
